@@ -167,6 +167,19 @@ def build_iter_cases(tier):
                     else:
                         c["size"] = [3, 2]
                     cases.append(c)
+    # iter(image) / a for-loop over the image: one pass, frames exactly as str(image) at that frame
+    for style, ident, method, cell in combos:
+        if method not in (None, "lines"):
+            continue            # iter() takes no style arguments: the class default (lines) applies
+        for fit in (True, False):
+            for t in ITER_TERMS:
+                c = dict(part="iter", entry="iter", style=style, identity=ident, cell=cell, src=ITER_GIF, kind="file",
+                         fmt="gif", schedule=[t] * ITER_GIF[3])
+                if fit:
+                    c["fit"] = True
+                else:
+                    c["size"] = [3, 2]
+                cases.append(c)
     return cases
 
 
@@ -182,7 +195,8 @@ def iter_case(col, case):
     ident = cc.vt_identity(case["identity"])
     img = sub.img
     spec = "1.1" + ("+" + case["method"][0].upper() if case.get("method") else "")
-    it = L.common.ImageIterator(img, case["repeat"], spec, case["cached"])
+    by_iter = case.get("entry") == "iter"
+    it = iter(img) if by_iter else L.common.ImageIterator(img, case["repeat"], spec, case["cached"])
     try:
         resized = False
         for k, term in enumerate(sched):
@@ -192,6 +206,10 @@ def iter_case(col, case):
             frame = next(it)
             col.count()
             w, h = img.rendered_size
+            if by_iter and frame != str(img):
+                col.violation(sig_of(case, "iter-frame-is-str", part="iterator", fit=bool(case.get("fit"))),
+                              f"frame {k} of iter(image) differs from str(image) at that frame "
+                              f"({len(frame)} vs {len(str(img))} characters)", dict(case, step=k))
             key = (h64(frame), ident, w, h)
             probs = _frame_memo.get(key)
             if probs is None:
@@ -208,7 +226,7 @@ def iter_case(col, case):
                     break
                 _frame_memo[key] = probs
             for clause, text in probs[:1]:
-                col.violation(sig_of(case, clause, part="iterator", cached=case["cached"], fit=bool(case.get("fit")),
+                col.violation(sig_of(case, clause, part="iterator", cached=case.get("cached"), fit=bool(case.get("fit")),
                                      after_resize=resized),
                               f"frame {k} (terminal {term}, advertised {w}x{h}): {text}", dict(case, step=k))
             col.add_distinct(key)
